@@ -181,16 +181,25 @@ def handleC08 : List String → String
     match fromHex? script with
     | some sc => if Sim.covered sc then "ok True" else "ok False"
     | none => "bad-op"
-  -- the btclib-shaped model of `verify_script` (final=False): bteval <base|v0> <flags> <script> <stack> <locktime> <sequence> <version>
-  | ["bteval", sv, flags, script, stack, lockTime, sequence, version] =>
+  -- the btclib-shaped model of `verify_script` (final=False):
+  --   bteval <base|v0> <flags> <script> <stack> <locktime> <sequence> <version> [<oracle>]
+  -- `op_checksig` is `Btclib.sharedChecksig` over the oracle's checker (the instantiation `btclib_eval_refines_core_partial`
+  -- speaks about).  Under `ask` the queries are collected by running Core's transcription on the same line first (it
+  -- reports `need <query>`); a query the btclib-shaped loop makes beyond those refuses.
+  | "bteval" :: sv :: flags :: script :: stack :: lockTime :: sequence :: version :: rest =>
     match parseFlags flags, fromHex? script, parseHexList stack, lockTime.toNat?, sequence.toNat?, version.toNat? with
     | some fl, some sc, some st, some lt, some sq, some ver =>
+      let checker := mkChecker (parseOracle (rest.headD "deny"))
       let cx : Btclib.Ctx := { flags := fl, segwit := sv == "v0", hashes := hashes, txLockTime := lt, txSequence := sq,
-                               txVersion := ver }
-      match Btclib.eval cx sc st.reverse with
-      | .ok out => "ok " ++ hexList out.reverse
-      | .refused => "err script"
-      | .unsupported => "unsupported"
+                               txVersion := ver, checker := checker,
+                               opChecksig := Btclib.sharedChecksig checker fl (sv == "v0") }
+      match Core.evalWith (Refine.coreCx cx sc) st.reverse 0 with
+      | .error (.NEED_ORACLE q) => s!"need {q}"
+      | _ =>
+        match Btclib.eval cx sc st.reverse with
+        | .ok out => "ok " ++ hexList out.reverse
+        | .refused => "err script"
+        | .unsupported => "unsupported"
     | _, _, _, _, _, _ => "bad-op"
   | _ => "bad-op"
 
